@@ -19,6 +19,9 @@ type Block struct {
 	Head  string   `json:"h"`
 	Items []Item   `json:"i"`
 	Notes []string `json:"notes,omitempty"`
+	// PadAfter: that many bytes of comment lines follow the block (files larger than the 64 KiB the
+	// line scanner buffers at most, without changing what the file means)
+	PadAfter int `json:"pad_after,omitempty"`
 }
 
 // Layout is one of the documented ways of writing the same file.
@@ -56,6 +59,9 @@ func render(blocks []Block, ly Layout) string {
 		if ly.Blank || i%3 == 0 {
 			b.WriteString(ly.EOL)
 		}
+		for n := 0; n < bl.PadAfter; n += 1000 {
+			b.WriteString("# " + strings.Repeat("p", 997) + ly.EOL)
+		}
 	}
 	return b.String()
 }
@@ -90,6 +96,9 @@ var (
 	boundaryBook = []string{"0.05", "0.15", "0.25", "0.35", "0.45", "0.005", "0.015"}
 )
 
+// extremeQty: everything strconv.ParseFloat accepts that ordinary files never contain.
+var extremeQty = []string{"NaN", "1e308", "-1e308", "Inf", "-Inf", "1e-320", "-0", "9007199254740993", "1e22", "0.000001"}
+
 func genQty(t *rapid.T, label string, exactOnly bool) string {
 	if exactOnly || rapid.IntRange(0, 3).Draw(t, label+"_kind") < 3 {
 		return rapid.SampledFrom(exactQty).Draw(t, label)
@@ -104,6 +113,7 @@ type BookOpts struct {
 	ExactOnly  bool
 	DeepChain  int  // if > 0, force a chain with this many references
 	Boundary   bool // coefficients from boundaryBook
+	Extreme    bool // coefficients from extremeQty
 }
 
 // genBook draws a recipe book. Recipes are created in a hidden topological
@@ -144,6 +154,9 @@ func genBook(t *rapid.T, o BookOpts) []Block {
 			if o.Boundary {
 				q = rapid.SampledFrom(boundaryBook).Draw(t, label+"_bq")
 			}
+			if o.Extreme && rapid.Bool().Draw(t, label+"_x") {
+				q = rapid.SampledFrom(extremeQty).Draw(t, label+"_xq")
+			}
 			book[i].Items = append(book[i].Items, Item{name, q})
 		}
 		if rapid.IntRange(0, 5).Draw(t, fmt.Sprintf("r%d_note", i)) == 5 {
@@ -183,6 +196,9 @@ type LogOpts struct {
 	Sorted    bool
 	Base      time.Time // first day of the window (zero: baseDay)
 	Boundary  bool      // quantities from boundaryLog
+	Extreme   bool      // quantities from extremeQty
+	LongDays  bool      // one or two days of 33..80 lines (with repeats, also of the line just before)
+	Pad       bool      // 2 x 40000 bytes of comment lines after blocks
 }
 
 // genLog draws a log: day blocks in any order, repeated dates, empty days,
@@ -228,11 +244,39 @@ func genLog(t *rapid.T, book []Block, o LogOpts) []Block {
 			if o.Boundary {
 				q = rapid.SampledFrom(boundaryLog).Draw(t, label+"_bq")
 			}
+			if o.Extreme && rapid.Bool().Draw(t, label+"_x") {
+				q = rapid.SampledFrom(extremeQty).Draw(t, label+"_xq")
+			}
 			days[i].Items = append(days[i].Items, Item{name, q})
 		}
 		if rapid.IntRange(0, 5).Draw(t, fmt.Sprintf("d%d_note", i)) == 5 {
 			days[i].Notes = []string{"weight: 7" + fmt.Sprint(i), "felt fine"}
 		}
+	}
+	if o.LongDays && n > 0 {
+		pool := append(append([]string{}, foods...), foreignPool...)
+		pool = append(pool, elementPool...)
+		for k := 0; k < 2; k++ {
+			d := rapid.IntRange(0, n-1).Draw(t, fmt.Sprintf("long_day%d", k))
+			lines := rapid.IntRange(33, 80).Draw(t, fmt.Sprintf("long_day%d_lines", k))
+			for len(days[d].Items) < lines {
+				j := len(days[d].Items)
+				name := rapid.SampledFrom(pool).Draw(t, fmt.Sprintf("ld%d_%d", k, j))
+				if j > 0 && rapid.IntRange(0, 3).Draw(t, fmt.Sprintf("ld%d_%d_rep", k, j)) == 3 {
+					name = days[d].Items[j-1].Name // repeats the line just before
+				}
+				q := "1"
+				if !o.ExactOnly {
+					q = genQty(t, fmt.Sprintf("ld%d_%d_q", k, j), false)
+				}
+				days[d].Items = append(days[d].Items, Item{name, q})
+			}
+		}
+	}
+	if o.Pad && n > 0 {
+		// two pads of 40000 bytes: the whole file exceeds 64 KiB although each half may not
+		days[rapid.IntRange(0, n-1).Draw(t, "pad_after")].PadAfter = 40000
+		days[rapid.IntRange(0, n-1).Draw(t, "pad_after2")].PadAfter += 40000
 	}
 	return days
 }
